@@ -77,6 +77,17 @@ NibbleCases(x) ==
   ELSE UNION {{<<f>> \o Fill(p, len - 1)} \cup {[(<<f>> \o Fill(p, len - 1)) EXCEPT ![i] = q] : i \in 2..len, q \in NibForeign}
               : f \in NibFirst, p \in NibBases, len \in NibLens(x)}
 
+\* SUCI contents by the structure of TS 24.501 9.11.3.4 / TS 33.501 Annex C: SUPI format x type, PLMN, routing indicator,
+\* protection scheme identifier (null, ECIES profile A, profile B, reserved, proprietary), home network public key identifier,
+\* and a scheme output that begins like an elliptic-curve point (02/03 compressed, 04 uncompressed) or not, at the lengths
+\* where the profiles' parts begin and end (ephemeral key 32 / 33 / 65 octets, MAC tag 8 octets, MSIN up to 5 octets).
+SuciHelpers == {"SuciToStringWithError", "SuciToString", "GetSUCI", "GetMobileIdentity", "NaiToString"}
+SuciSchemeLens == {0, 1, 8, 9, 32, 33, 39, 40, 41, 42, 45, 46, 47, 64, 65, 72, 73, 74, 78, 100}
+SuciCases(x) ==
+  IF x \notin SuciHelpers THEN {}
+  ELSE {<<fmt * 16 + 1, 2, 248, 57, 240, 255, sch, pki>> \o (IF n = 0 THEN <<>> ELSE <<first>> \o Fill(fillv, n - 1))
+        : fmt \in {0, 1, 2}, sch \in {0, 1, 2, 3, 12, 15}, pki \in {0, 255}, first \in {2, 3, 4, 0}, fillv \in {33, 255}, n \in SuciSchemeLens}
+
 \* DNN contents from the vocabulary of TS 23.003 9.1 / 9A (operator identifier mnc<MNC>.mcc<MCC>.gprs, the 3gppnetwork.org
 \* realm) in every combination of up to four labels, upper and lower case, with the empty label: code that looks for these
 \* words meets its corner cases (the word alone, too few labels before it, repeated) here.
@@ -101,7 +112,7 @@ CasesOf(x) ==
   ELSE IF x \in LoopHelpers
        THEN {[h |-> x, text |-> FALSE, wf |-> FALSE, in |-> s] : s \in (LoopCases(x) \cup VocabCases(x)) \ ManyCases(x)}
             \cup {[h |-> x, text |-> FALSE, wf |-> TRUE, in |-> s] : s \in ManyCases(x)}
-       ELSE {[h |-> x, text |-> FALSE, wf |-> FALSE, in |-> SubSeq(s, 1, Len(s))] : s \in FixedCases(x) \cup LongFixed(x) \cup NibbleCases(x)}
+       ELSE {[h |-> x, text |-> FALSE, wf |-> FALSE, in |-> SubSeq(s, 1, Len(s))] : s \in FixedCases(x) \cup LongFixed(x) \cup NibbleCases(x) \cup SuciCases(x)}
 ClassOfCase(c) == IF c.text THEN TextClass(c.h, c.in) ELSE ByteClass(c.h, c.in)
 
 \* The cases of one helper are printed while the invariant is evaluated on that helper's state; the state graph is
